@@ -3,20 +3,18 @@ type nat =
 | O
 | S of nat
 
+val fst : ('a1 * 'a2) -> 'a1
+
 val snd : ('a1 * 'a2) -> 'a2
-
-val length : 'a1 list -> nat
-
-val app : 'a1 list -> 'a1 list -> 'a1 list
 
 type comparison =
 | Eq
 | Lt
 | Gt
 
-val add : nat -> nat -> nat
+val compOpp : comparison -> comparison
 
-val sub : nat -> nat -> nat
+val add : nat -> nat -> nat
 
 type positive =
 | XI of positive
@@ -96,7 +94,11 @@ module Z :
 
   val opp : z -> z
 
+  val sub : z -> z -> z
+
   val mul : z -> z -> z
+
+  val compare : z -> z -> comparison
 
   val sgn : z -> z
 
@@ -109,23 +111,21 @@ module Z :
   val ggcd : z -> z -> z * (z * z)
  end
 
-val pow_pos : ('a1 -> 'a1 -> 'a1) -> 'a1 -> positive -> 'a1
+val zeq_bool : z -> z -> bool
 
-val nth : nat -> 'a1 list -> 'a1 -> 'a1
+val pow_pos : ('a1 -> 'a1 -> 'a1) -> 'a1 -> positive -> 'a1
 
 val map : ('a1 -> 'a2) -> 'a1 list -> 'a2 list
 
 val fold_right : ('a2 -> 'a1 -> 'a1) -> 'a1 -> 'a2 list -> 'a1
-
-val firstn : nat -> 'a1 list -> 'a1 list
-
-val skipn : nat -> 'a1 list -> 'a1 list
 
 val seq : nat -> nat -> nat list
 
 type q = { qnum : z; qden : positive }
 
 val inject_Z : z -> q
+
+val qeq_bool : q -> q -> bool
 
 val qplus : q -> q -> q
 
@@ -165,75 +165,11 @@ val sumQ : q list -> q
 
 val qnat : nat -> q
 
-type vec = q list
-
-val zipWith : (q -> q -> q) -> vec -> vec -> vec
-
-val vadd : vec -> vec -> vec
-
-val vsub : vec -> vec -> vec
-
-val vmul : vec -> vec -> vec
-
-val smul : q -> vec -> vec
-
-val vmuls : vec -> q -> vec
-
-val vdivs : vec -> q -> vec
-
-val vsubs : vec -> q -> vec
-
-val vsum : vec -> q
-
-val dot : vec -> vec -> q
-
 val qpow : q -> z -> q
-
-val arange : nat -> vec
-
-val spow_arange : q -> nat -> vec
-
-val vnth : nat -> vec -> q
-
-val slice_from : nat -> vec -> vec
-
-val slice_to : nat -> vec -> vec
-
-val drop_last : nat -> vec -> vec
-
-val take_last : nat -> vec -> vec
-
-val shift_m1 : vec -> vec
 
 val iter : nat -> ('a1 -> 'a1) -> 'a1 -> 'a1
 
 val peval : q list -> q -> q
-
-val dSIS_homogeneous_meanfield : vec -> q -> q -> q -> q -> vec
-
-val dSIR_homogeneous_meanfield : vec -> q -> q -> q -> q -> vec
-
-val dSIS_homogeneous_pairwise : vec -> q -> q -> q -> q -> q -> vec
-
-val dSIR_homogeneous_pairwise : vec -> q -> q -> q -> q -> vec
-
-val dSIS_super_compact_pairwise :
-  vec -> q -> q -> q -> q -> q -> q -> q -> vec
-
-val dSIR_super_compact_pairwise :
-  vec -> q -> q -> q -> (q -> q) -> (q -> q) -> (q -> q) -> q -> vec
-
-val dEBCM : vec -> q -> q -> q -> q -> (q -> q) -> (q -> q) -> q -> q -> vec
-
-val dSIS_compact_pairwise : vec -> q -> vec -> q -> q -> q -> vec
-
-val dSIR_compact_pairwise : vec -> q -> q -> q -> q -> vec
-
-val dSIS_heterogeneous_meanfield : vec -> q -> nat -> q -> q -> vec
-
-val dSIR_heterogeneous_meanfield : vec -> q -> vec -> vec -> q -> q -> vec
-
-val dSIR_compact_effective_degree : vec -> q -> q -> q -> q -> vec
 
 val attack_rate_discrete_init : q -> q -> q -> (q -> q) -> (q -> q) -> q
 
@@ -265,8 +201,25 @@ val eBCM_discrete_step :
 val eBCM_discrete_loop :
   q -> q -> (q -> q) -> q -> q -> q -> (q -> q) -> nat -> ((q * q) * q) * q
 
-val rhs_call : nat -> q list -> vec list -> nat list -> (q -> q) list -> vec
+type pkdict = (nat * q) list
 
-val loop_call : nat -> q list -> (q -> q) list -> nat -> vec
+val psihat_of : pkdict -> (nat -> q) -> q -> q
+
+val psihatP_of : pkdict -> (nat -> q) -> q -> q
+
+val kave_of : pkdict -> q
+
+val epi_prob_discrete : pkdict -> q -> nat -> q
+
+val attack_rate_discrete : pkdict -> q -> q option -> nat -> q
+
+val attack_rate_cts_time : pkdict -> q -> q -> q option -> nat -> q
+
+val ebcm_discrete_row :
+  q -> (q -> q) -> (q -> q) -> q -> q -> q -> q -> nat -> ((q * q) * q) * q
+
+val ebcm_discrete_rows :
+  q -> (q -> q) -> (q -> q) -> q -> q -> q -> q -> nat -> (((q * q) * q) * q)
+  list
 
 val glue_types : n result
